@@ -4,6 +4,7 @@ package main
 
 import (
 	"encoding/json"
+	"fmt"
 	"io"
 	"math"
 	"math/big"
@@ -44,6 +45,7 @@ type discDist interface {
 func ddistReplay(in io.Reader, raw bool, args []string) (*Summary, error) {
 	sum := &Summary{Rule: "one case per distribution (binomial N, P=a/b; hypergeometric N, K, Draws) emitted by TLC with the exact BigInt mass vector; PMF and CDF are evaluated at every integer from 3 below to 3 above the support and at k+0.5, k-0.5 (non-integer arguments are floored); non-trivial = support of at least 3 points"}
 	worst := 0.0
+	ddistColdStart(sum)
 	err := forEachCase(in, raw, func(c json.RawMessage) {
 		var dc ddCase
 		if e := json.Unmarshal(c, &dc); e != nil || len(dc.Mass) == 0 {
@@ -164,4 +166,34 @@ func ddistReplay(in io.Reader, raw bool, args []string) (*Summary, error) {
 	})
 	sum.note("worst_cdf_abs_error", worst)
 	return sum, err
+}
+
+// ddistColdStart: the discrete distributions as the first calls of the process, concurrently and with differing sizes.
+func ddistColdStart(sum *Summary) {
+	var names []string
+	var calls []func() float64
+	add := func(name string, f func() float64) { names, calls = append(names, name), append(calls, f) }
+	var sizes []int
+	for n := 21; n <= 1000; n = n + 1 + n/9 {
+		sizes = append(sizes, n)
+	}
+	// one function at a time over growing sizes, so that the calls released together differ in size
+	for _, n := range sizes {
+		n := n
+		b := stats.BinomialDist{N: n, P: 0.3}
+		add(fmt.Sprintf("%+v.PMF(%d)", b, n/3), func() float64 { return b.PMF(float64(n / 3)) })
+	}
+	for _, n := range sizes {
+		n := n
+		h := stats.HypergeometicDist{N: n + 3, K: n / 2, Draws: n / 3}
+		add(fmt.Sprintf("%+v.PMF(%d)", h, n/6), func() float64 { return h.PMF(float64(n / 6)) })
+	}
+	for _, n := range sizes {
+		n := n
+		b := stats.BinomialDist{N: n + 1, P: 0.3}
+		add(fmt.Sprintf("%+v.CDF(%d)", b, n/3), func() float64 { return b.CDF(float64(n / 3)) })
+		h := stats.HypergeometicDist{N: n + 2, K: n / 2, Draws: n / 3}
+		add(fmt.Sprintf("%+v.CDF(%d)", h, n/6), func() float64 { return h.CDF(float64(n / 6)) })
+	}
+	concurrentFirst(sum, "discrete distributions", names, calls)
 }
